@@ -49,6 +49,10 @@ CLAIMED = {
    text='TLC checks NoLoss on the whole dtype-resolution table (SFCoerce.Resolve over 24 dtype tokens, every ordered pair, symbolic element classes with their representability written out): the resolved dtype holds every natural element of both operands except in the cells named KnownLossy, and a strict instance without the exception fails (negative control = the int64/uint64-with-float design decision); the table is replayed against util.resolve_dtype and np.result_type; 19 merge sites (concat, reindex/shift fill, assign element/array, fillna, overlay, insert, from_records, iterables, row consolidation, IndexGO.append, FrameGO growth ...) are executed on dtype pairs x 15 element values and TLC (Trace_C07) judges every recorded merge: each stored element is the supplied one (SameElement), the result dtype is the resolution, untouched columns keep their dtype.',
    ref='DESIGN.md section 4 (C07)', note='Instants and durations are compared unit-free; a rejected merge (exception) stores nothing and is not a coercion. str with bytes is outside the claim.',
    technique='TLA+ spec SFCoerce model checked with TLC; resolution table replayed against the code; recorded merges validated by a TLC trace spec'),
+ 'C09': dict(
+   text='TLC checks the heap model SFGo (objects with identity, growth calls append / extend with valid, duplicate, partially duplicate and mis-sized arguments, 28 derivation routes) exhaustively for small constants with the action properties AppendOnly, AllOrNothing and Isolation and the invariant NoDuplicates; the as-built variant (extend stops at the first duplicate) is kept as negative control and violates AllOrNothing; TLC simulation behaviours are replayed step by step on real FrameGO / IndexGO and derived containers, and seeded random histories recorded from the real code are validated line by line by Trace_Go (effect of the call = logged state, plus the step-wise properties evaluated on the logged states); after EVERY step EVERY live object is projected: labels, labels and data in step, every column readable, membership and lookup of every universe label (present and absent), read-only flags.',
+   ref='DESIGN.md section 4 (C09)', note='IndexHierarchyGO growth is covered under C05. Zero-column Frames use a reduced route set (operators on them raise, recorded under C06).',
+   technique='TLA+ heap model SFGo model checked with TLC (action properties); TLC simulation behaviours replayed into the code; recorded histories validated by a TLC trace spec'),
 }
 REASON_TODO = 'not yet built in this round: the specification module for this property is still being written (see DESIGN.md section 9)'
 ALL = ['C%02d' % i for i in range(1, 21)]
